@@ -50,3 +50,17 @@ Theorem C03_unix_time_rational : forall k n d, Dom k n d ->
      (0, y, mo, dd, hh, mi, ss, ((k * d) mod n) * 10 ^ 12 / n)).
 Proof. exact unix_time_rational_exact. Qed.
 Print Assumptions C03_unix_time_rational.
+
+(* digital_rf_get_time_parts, which the regenerated code above calls, is itself checked on every run
+   (translator T13): it must take its broken-down time from gmtime(&unix_second) -- UTC, not the local
+   zone, not home-made arithmetic -- and add the constants of the regenerated table; the hand model
+   Model/TimeParts.v used above is that table applied to libc's gmtime (Base/Civil.v) *)
+From Coq Require Import List.
+Import ListNotations.
+From DRF Require Import Model.TimeParts Gen.TimePartsGen Proofs.TimePartsGenProofs.
+
+Theorem C03_time_parts_is_gmtime_plus_the_regenerated_table : forall t,
+  let '(rc, y, m, d, hh, mm, ss) := digital_rf_get_time_parts t in
+  rc = 0 /\ gen_time_parts t = [y; m; d; hh; mm; ss].
+Proof. exact time_parts_regen. Qed.
+Print Assumptions C03_time_parts_is_gmtime_plus_the_regenerated_table.
